@@ -2116,7 +2116,7 @@ f_objects (void)
   object_t *target = current_object;
   array_t *ret;
   funptr_t *f = 0;
-  int display_hidden = 0, t_sz, i, j, num_arg = st_num_arg;
+  int display_hidden = 0, t_sz, i, j, k, n, num_arg = st_num_arg;
   svalue_t *v;
   svalue_t *arg = sp - num_arg + 1;
 
@@ -2135,7 +2135,10 @@ f_objects (void)
 
   push_malloced_string ((char *) tmp);
 
-  for (i = 0, ob = obj_list; ob; ob = ob->next_all)
+  /* First collect the candidates, before the filter is run on any of them: it may
+   * destruct or load objects, which relinks obj_list (a destructed object's next_all
+   * leads into the list of destructed objects). */
+  for (n = 0, ob = obj_list; ob; ob = ob->next_all)
     {
       if (ob->flags & O_HIDDEN)
         {
@@ -2144,6 +2147,27 @@ f_objects (void)
           if (!(display_hidden & 2))
             continue;
         }
+      tmp[n] = ob;
+      if (++n == t_sz)
+        {
+          if (!
+              (tmp =
+               (object_t **) extend_string ((char *) tmp,
+                                            (t_sz +=
+                                             1000) * sizeof (object_t *))))
+            fatal ("Out of memory!\n");
+          else
+            sp->u.string = (char *) tmp;
+        }
+    }
+
+  /* Then filter them; the objects stay allocated until the backend frees the
+   * destructed ones, so the plain pointers are safe to keep meanwhile. */
+  for (i = 0, k = 0; k < n; k++)
+    {
+      ob = tmp[k];
+      if (ob->flags & O_DESTRUCTED)
+        continue;
       if (f)
         {
           push_object (ob);
@@ -2174,19 +2198,10 @@ f_objects (void)
           if ((v->type == T_NUMBER) && !v->u.number)
             continue;
         }
+      if (ob->flags & O_DESTRUCTED)
+        continue;
 
-      tmp[i] = ob;
-      if (++i == t_sz)
-        {
-          if (!
-              (tmp =
-               (object_t **) extend_string ((char *) tmp,
-                                            (t_sz +=
-                                             1000) * sizeof (object_t *))))
-            fatal ("Out of memory!\n");
-          else
-            sp->u.string = (char *) tmp;
-        }
+      tmp[i++] = ob;
     }
   if (i > CONFIG_INT (__MAX_ARRAY_SIZE__))
     i = CONFIG_INT (__MAX_ARRAY_SIZE__);
